@@ -45,6 +45,14 @@ def handleLine (line : String) : String :=
   | ["LIB", "E", prog, args, fl] => libOut (.exec (unhx prog) (unhxl args)) (flags fl)
   | ["LIB", "S", prog, opts, po, cmd, args, fl] =>
     libOut (.shell { prog := unhx prog, options := unhxl opts, programOption := if po == "-" then none else some (unhx po) } (unhx cmd) (unhxl args)) (flags fl)
+  | ["CLI", ns, sh, esh, wrap, words] =>
+    -- what the CLI hands to the supervisor: interpret_command_args, then to_spawnable
+    let o (x : String) : Option Str := if x == "-" then none else some (unhx x)
+    let a : CliCmd := { program := unhxl words, noShell := ns == "1", shell := o sh, envShell := o esh,
+                        wrap := match wrap with | "s" => .session | "n" => .none | _ => .group }   -- the default is group
+    match interpret a with
+    | .ok (p, opts) => libOut p opts
+    | .error _ => "config-error:empty-shell"
   | _ => "bad-op"
 
 
